@@ -98,6 +98,40 @@ def XR.truthy : XR → Bool
 def ratFloorDiv (a b : Rat) : Option Rat := if b = 0 then none else some ((a / b).floor : Rat)
 def ratMod (a b : Rat) : Option Rat := if b = 0 then none else some (a - b * ((a / b).floor : Rat))
 
+/-- The integer denoted by an integer-valued `XR` (python int / numpy int or bool entry). -/
+def xrInt? : XR → Option Int
+  | XR.fin q => if q.den = 1 then some q.num else none
+  | _ => none
+
+/-- Bitwise ops on two's complement integers (python `int.__and__` …), from the `Nat` ops of core:
+    a negative `x` is `Int.not n` with `n = -x-1 ≥ 0`. -/
+def natAndNot (a b : Nat) : Nat := a ^^^ (a &&& b)
+def intLand (x y : Int) : Int :=
+  match decide (0 ≤ x), decide (0 ≤ y) with
+  | true, true => ((x.toNat &&& y.toNat : Nat) : Int)
+  | true, false => ((natAndNot x.toNat (Int.not y).toNat : Nat) : Int)
+  | false, true => ((natAndNot y.toNat (Int.not x).toNat : Nat) : Int)
+  | false, false => Int.not (((Int.not x).toNat ||| (Int.not y).toNat : Nat) : Int)
+def intLor (x y : Int) : Int :=
+  match decide (0 ≤ x), decide (0 ≤ y) with
+  | true, true => ((x.toNat ||| y.toNat : Nat) : Int)
+  | true, false => Int.not ((natAndNot (Int.not y).toNat x.toNat : Nat) : Int)
+  | false, true => Int.not ((natAndNot (Int.not x).toNat y.toNat : Nat) : Int)
+  | false, false => Int.not (((Int.not x).toNat &&& (Int.not y).toNat : Nat) : Int)
+def intXor (x y : Int) : Int :=
+  match decide (0 ≤ x), decide (0 ≤ y) with
+  | true, true => ((x.toNat ^^^ y.toNat : Nat) : Int)
+  | true, false => Int.not ((x.toNat ^^^ (Int.not y).toNat : Nat) : Int)
+  | false, true => Int.not (((Int.not x).toNat ^^^ y.toNat : Nat) : Int)
+  | false, false => (((Int.not x).toNat ^^^ (Int.not y).toNat : Nat) : Int)
+
+/-- `operator.and_/or_/xor` as funsor's ops use them: BITWISE on (two's complement) integers — which on
+    boolean data {0,1} coincides with the logical connective — and a TypeError on floats. -/
+def bitop (f : Int → Int → Int) (a b : XR) : Option XR :=
+  match xrInt? a, xrInt? b with
+  | some x, some y => some (XR.fin ((f x y : Int) : Rat))
+  | _, _ => none
+
 /-- Pointwise binary ops with numpy conventions on the exact fragment (no transcendental ops). -/
 def binop (name : String) (a b : XR) : Option XR :=
   match name with
@@ -106,9 +140,9 @@ def binop (name : String) (a b : XR) : Option XR :=
   | "mul" => some (XR.mul a b)
   | "max" => some (XR.max a b)
   | "min" => some (XR.min a b)
-  | "and" => some (boolXR (a.truthy && b.truthy))
-  | "or" => some (boolXR (a.truthy || b.truthy))
-  | "xor" => some (boolXR (a.truthy != b.truthy))
+  | "and" => bitop intLand a b
+  | "or" => bitop intLor a b
+  | "xor" => bitop intXor a b
   | "eq" => some (boolXR (decide (a = b) && !a.isNan))
   | "ne" => some (boolXR (!(decide (a = b) && !a.isNan)))
   | "lt" => some (boolXR (XR.lt a b))
@@ -139,7 +173,14 @@ def unop (name : String) (a : XR) : Option XR :=
   | "neg" => some (XR.neg a)
   | "pos" => some a
   | "abs" => some (if XR.lt a 0 then XR.neg a else a)
-  | "invert" => some (boolXR (!a.truthy))
+  -- `operator.invert`: logical not on numpy-bool entries, `-x-1` on integers.  A 0/1 value does not tell
+  -- which it is: the logical reading is taken for {0,1} (numpy-bool arrays, what comparisons produce);
+  -- int-typed 0/1 data and python-int `Number` booleans (`~Number(False, 2) = Number(-1, 2)`) are outside
+  -- the exact fragment and must not be generated.
+  | "invert" =>
+    match xrInt? a with
+    | some x => if x = 0 ∨ x = 1 then some (XR.fin ((1 - x : Int) : Rat)) else some (XR.fin ((-x - 1 : Int) : Rat))
+    | none => none
   | "not" => some (boolXR (!a.truthy))
   | "reciprocal" =>
     match a with
